@@ -25,7 +25,7 @@ ASSUMPTIONS = ["weights are compared over exact dyadic rationals: float rounding
                "driver; `C09_matEntry_flat` proves the two agree",
                "scipy.sparse.kron / csr arithmetic are modelled by their index formulas, not verified"]
 RULE = ("all ordered pairs of strings incl. phases for n <= 2, all strings of n = 3 (and n = 5 in the thorough tier) for the one-string "
-        "operations, sampled/complete letter pairs for n = 3, seeded random strings for 4 <= n <= 10, printed forms with every prefix, "
+        "operations, sampled (quick) / all 256^2 ordered (thorough) pairs for n = 3, seeded random strings for 4 <= n <= 10, printed forms with every prefix, "
         "'+' and blanks plus a malformed-text stream, constructor calls over container kinds x dtypes x valid/invalid contents, "
         "operator histories of <= 30 insertions with colliding strings and cancelling weights; distinct = distinct case dicts")
 TECHNIQUE = "Lean 4 theorems about a model of the code + translator/correspondence tie checked on every run"
@@ -767,11 +767,9 @@ def gen_cases(tier, rng):
         yield from single_ops(p)
     l3 = [p for p in s3 if p["q"] == 0]
     if T:
-        for a in l3:
-            for b in l3:
-                yield from pair_ops(dict(a, q=rng.randint(0, 3)), dict(b, q=rng.randint(0, 3)))
-        for _ in range(20000):
-            yield from pair_ops(rng.choice(s3), rng.choice(s3))
+        for a in s3:                  # all 256^2 ordered pairs of n = 3 incl. all four phases on both sides
+            for b in s3:
+                yield from pair_ops(a, b)
         for p in strings(5):
             yield from single_ops(p, mat=(rng.random() < 0.25))
     else:
@@ -813,5 +811,5 @@ def run(rep, tier, rng, drv):
                 rep.count("pop.history:matrix:" + ("raised" if "raised" in o["val"]["mat"] else "zero" if o["val"]["mat"]["val"] == "zero" else "dense"))
         return o
     run_correspondence(rep, drv, gen_cases(tier, rng), counted_impl, model_req, compare, oracle, "drv_pauli ops")
-    rep.cov["exhaustive"] = {"n<=2 ordered pairs incl. phases": True, "n=3 strings": True, "n=3 letter pairs": tier == "thorough",
+    rep.cov["exhaustive"] = {"n<=2 ordered pairs incl. phases": True, "n=3 strings": True, "n=3 ordered pairs incl. phases": tier == "thorough",
                              "n=5 strings (one-string ops)": tier == "thorough"}
